@@ -45,3 +45,715 @@ Section G.
   Proof. intros H. apply sidle_buf in H. destruct s as [bf d]. cbn in *. congruence. Qed.
 
 End G.
+
+
+(* ====================================================================================== *)
+(* Device level: invariant, decoding of a request, handlers                                 *)
+
+Definition gaia_inv (d : gdev) : Prop := length (vd d) = 10%nat /\ length (vg d) = 10%nat.
+
+Lemma gaia_inv0 : gaia_inv gaia_dev0.
+Proof. split; reflexivity. Qed.
+
+Lemma gaia_inv_with_id d c : gaia_inv d -> gaia_inv (with_id d c).
+Proof. intros H. exact H. Qed.
+
+Definition gregs (d : gdev) : list Z * list Z * Z := (vd d, vg d, conf d).
+
+Definition set_kind (k : gkind) : bool :=
+  match k with KSetd | KSetg | KLoadconf => true | _ => false end.
+
+Definition arity (k : gkind) : Z :=
+  match k with KIdn | KConf | KName => 0 | KSetd | KSetg => 2 | _ => 1 end.
+
+Lemma gaia_lookup_arity tok k l : gaia_lookup gaia_table tok = Some (k, l) -> l = arity k.
+Proof.
+  unfold gaia_table. cbn [gaia_lookup].
+  repeat (destruct (zlist_eqb _ tok); [intros H; injection H as <- <-; reflexivity|]).
+  discriminate.
+Qed.
+
+(* what _execute guarantees about the converted arguments it hands to a handler *)
+Definition args_valid (k : gkind) (args : list Z) : Prop :=
+  match arity k with
+  | 0 => args = []
+  | 2 => exists x y, args = [x; y] /\ 1 <= x <= 10 /\ 0 <= y < 1024
+  | _ => exists x, args = [x] /\ gaia_in_first k x = true
+  end.
+
+Lemma gaia_decode_ok toks k args cid :
+  gaia_decode toks = DOk k args cid -> args_valid k args /\ cid = snd (mid_last toks).
+Proof.
+  unfold gaia_decode. destruct toks as [|a0 rest0]; [discriminate|].
+  destruct (gaia_lookup gaia_table a0) as [[k' l]|] eqn:El; [|discriminate].
+  apply gaia_lookup_arity in El.
+  destruct (mid_last (a0 :: rest0)) as [margs cid'] eqn:Em. cbn [snd].
+  destruct (l <? Z.of_nat (length margs)); [discriminate|].
+  destruct (l =? 0) eqn:E0.
+  - intros H. injection H as <- <- <-. split; [|reflexivity].
+    unfold args_valid. rewrite <- El. replace l with 0 by lia. reflexivity.
+  - destruct margs as [|t0 rest]; [discriminate|].
+    destruct (parse_int t0) as [x|]; [|discriminate].
+    destruct (gaia_in_first k' x) eqn:Ef; cbn [negb]; [|discriminate].
+    destruct (l =? 2) eqn:E2.
+    + destruct rest as [|t1 r]; [discriminate|].
+      destruct (parse_int t1) as [y|]; [|discriminate].
+      destruct ((0 <=? y) && (y <? 1024)) eqn:Er; cbn [negb]; [|discriminate].
+      intros H. injection H as <- <- <-. split; [|reflexivity].
+      unfold args_valid. destruct k'; cbn [arity] in *; try lia.
+      all: exists x, y; unfold gaia_in_first in Ef; repeat split; lia.
+    + intros H. injection H as <- <- <-. split; [|reflexivity].
+      unfold args_valid. destruct k'; cbn [arity] in *; try lia; exists x; auto.
+Qed.
+
+Lemma gpy_index_in l i : 0 <= i < Z.of_nat (length l) -> gpy_index l i = Some (Z.to_nat i).
+Proof. intros H. unfold gpy_index. replace (0 <=? i) with true by lia. replace (i <? Z.of_nat (length l)) with true by lia. reflexivity. Qed.
+
+Lemma nth_error_some_len {A} (l : list A) n : (n < length l)%nat -> exists v, nth_error l n = Some v.
+Proof. intros H. destruct (nth_error l n) eqn:E; [eauto|]. apply nth_error_None in E. lia. Qed.
+
+Section H.
+  Variable temp : Z.
+
+  Lemma handle_setd d x y : gaia_inv d -> 1 <= x <= 10 ->
+    exists l, set_nth (Z.to_nat (x - 1)) y (vd d) = Some l /\
+      gaia_handle temp KSetd d [x; y] =
+      let d' := {| vd := l; vg := vg d; conf := conf d; cmd_id := cmd_id d |} in
+      (d', OReply (gaia_reply (render_int x) d')).
+  Proof.
+    intros [H1 H2] Hx. destruct (set_nth_some (Z.to_nat (x - 1)) y (vd d)) as [l Hl]; [lia|].
+    exists l. split; [exact Hl|]. cbn [gaia_handle hd].
+    rewrite gpy_index_in by lia. rewrite Hl. reflexivity.
+  Qed.
+
+  Lemma handle_setg d x y : gaia_inv d -> 1 <= x <= 10 ->
+    exists l, set_nth (Z.to_nat (x - 1)) y (vg d) = Some l /\
+      gaia_handle temp KSetg d [x; y] =
+      let d' := {| vd := vd d; vg := l; conf := conf d; cmd_id := cmd_id d |} in
+      (d', OReply (gaia_reply (render_int x) d')).
+  Proof.
+    intros [H1 H2] Hx. destruct (set_nth_some (Z.to_nat (x - 1)) y (vg d)) as [l Hl]; [lia|].
+    exists l. split; [exact Hl|]. cbn [gaia_handle hd].
+    rewrite gpy_index_in by lia. rewrite Hl. reflexivity.
+  Qed.
+
+  Lemma handle_getvd d x : gaia_inv d -> 1 <= x <= 10 ->
+    exists v, nth_error (vd d) (Z.to_nat (x - 1)) = Some v /\
+      gaia_handle temp KGetvd d [x] = (d, OReply (gaia_reply (render_int v) d)).
+  Proof.
+    intros [H1 H2] Hx. destruct (nth_error_some_len (vd d) (Z.to_nat (x - 1))) as [v Hv]; [lia|].
+    exists v. split; [exact Hv|]. cbn [gaia_handle hd]. rewrite gpy_index_in by lia. rewrite Hv. reflexivity.
+  Qed.
+
+  Lemma handle_getvg d x : gaia_inv d -> 1 <= x <= 10 ->
+    exists v, nth_error (vg d) (Z.to_nat (x - 1)) = Some v /\
+      gaia_handle temp KGetvg d [x] = (d, OReply (gaia_reply (render_int v) d)).
+  Proof.
+    intros [H1 H2] Hx. destruct (nth_error_some_len (vg d) (Z.to_nat (x - 1))) as [v Hv]; [lia|].
+    exists v. split; [exact Hv|]. cbn [gaia_handle hd]. rewrite gpy_index_in by lia. rewrite Hv. reflexivity.
+  Qed.
+
+  (* every handler call that _execute can make yields exactly one framed reply; only the three
+     set commands touch the registers *)
+  Lemma handle_reply k d args : gaia_inv d -> args_valid k args ->
+    exists raw d', gaia_handle temp k d args = (d', OReply (gaia_reply raw d')) /\
+                   cmd_id d' = cmd_id d /\ gaia_inv d' /\ (set_kind k = false -> d' = d).
+  Proof.
+    intros Hi Hv. pose proof Hi as [H1 H2].
+    destruct k; unfold args_valid in Hv; cbn [arity] in Hv;
+      try (subst args);
+      try (destruct Hv as (x & y & -> & Hx & Hy));
+      try (destruct Hv as (x & -> & Hf); unfold gaia_in_first in Hf).
+    - eexists _, d. cbn [gaia_handle hd]. split; [reflexivity|]. repeat split; auto.
+    - eexists _, _. cbn [gaia_handle hd]. split; [reflexivity|]. repeat split; auto. discriminate.
+    - eexists _, d. cbn [gaia_handle hd]. split; [reflexivity|]. repeat split; auto.
+    - destruct (handle_setd d x y Hi Hx) as (l & Hl & ->). eexists _, _. split; [reflexivity|].
+      split; [reflexivity|]. split; [|discriminate].
+      split; cbn [vd vg]; [rewrite (set_nth_length _ _ _ _ Hl); exact H1|exact H2].
+    - destruct (handle_setg d x y Hi Hx) as (l & Hl & ->). eexists _, _. split; [reflexivity|].
+      split; [reflexivity|]. split; [|discriminate].
+      split; cbn [vd vg]; [exact H1|rewrite (set_nth_length _ _ _ _ Hl); exact H2].
+    - eexists _, d. cbn [gaia_handle hd]. split; [reflexivity|]. repeat split; auto.
+    - destruct (handle_getvg d x Hi ltac:(lia)) as (v & _ & ->). eexists _, d. repeat split; auto.
+    - destruct (handle_getvd d x Hi ltac:(lia)) as (v & _ & ->). eexists _, d. repeat split; auto.
+    - eexists _, d. cbn [gaia_handle hd]. split; [reflexivity|]. repeat split; auto.
+    - eexists _, d. cbn [gaia_handle hd]. split; [reflexivity|]. repeat split; auto.
+    - eexists _, d. cbn [gaia_handle hd]. split; [reflexivity|]. repeat split; auto.
+    - eexists _, d. cbn [gaia_handle hd]. split; [reflexivity|]. repeat split; auto.
+  Qed.
+
+  (* specification of one executed line: always exactly one reply, framed '#' body ' ' id '\n' with
+     the id held after this step; what happens to the device is determined by the decoding *)
+  Definition gaia_post (d : gdev) (m : list Z) (d' : gdev) (o : outcome) : Prop :=
+    gaia_inv d' /\
+    match gaia_decode (gaia_tokens m) with
+    | DEmpty => d' = d /\ o = OReply (gaia_error 1000 (cmd_id d))
+    | DUnknown => d' = d /\ o = OReply (gaia_error 1001 (cmd_id d))
+    | DErr c cid => d' = with_id d cid /\ o = OReply (gaia_error c cid)
+    | DOk k args cid =>
+        args_valid k args /\ cmd_id d' = cid /\ (set_kind k = false -> d' = with_id d cid) /\
+        exists raw, o = OReply (gaia_frame raw cid) /\
+                    gaia_handle temp k (with_id d cid) args = (d', o)
+    end.
+
+  Lemma gaia_exec_post d m d' o : gaia_inv d -> gaia_exec temp d m = (d', o) -> gaia_post d m d' o.
+  Proof.
+    intros Hi H. unfold gaia_exec in H. unfold gaia_post.
+    destruct (gaia_decode (gaia_tokens m)) as [| |c cid|k args cid] eqn:Ed.
+    - injection H as <- <-. auto.
+    - injection H as <- <-. auto.
+    - injection H as <- <-. auto.
+    - destruct (gaia_decode_ok _ _ _ _ Ed) as [Hv _].
+      destruct (handle_reply k (with_id d cid) args (gaia_inv_with_id d cid Hi) Hv)
+        as (raw & d1 & Hh & Hid & Hinv & Hsame).
+      rewrite Hh in H. injection H as <- <-. split; [exact Hinv|].
+      split; [exact Hv|]. split; [exact Hid|]. split; [exact Hsame|].
+      exists raw. unfold gaia_reply. rewrite Hid. cbn [with_id cmd_id]. split; [reflexivity|].
+      rewrite Hh. unfold gaia_reply. rewrite Hid. reflexivity.
+  Qed.
+
+  (* ---- steps ---- *)
+  Definition gaia_executed (s : gaia_state) (b : Z) : option (list Z) :=
+    match snd (gaia_fstep (buf s) b) with EExec m => Some m | EOut _ => None end.
+
+  Lemma gaia_step_cases s b :
+    (gaia_executed s b = None /\ dev (fst (gaia_step temp s b)) = dev s /\
+     snd (gaia_step temp s b) = OTrue) \/
+    (exists m, gaia_executed s b = Some m /\
+               gaia_exec temp (dev s) m = (dev (fst (gaia_step temp s b)), snd (gaia_step temp s b))).
+  Proof.
+    unfold gaia_executed, gaia_step, sstep.
+    destruct (gaia_fstep (buf s) b) as [bf [o1|m]] eqn:Ef; cbn [fst snd dev].
+    - left. repeat split. unfold gaia_fstep in Ef.
+      destruct (buf s ++ [b]) as [|h r]; [injection Ef as _ <-; reflexivity|].
+      destruct h; try (injection Ef as _ <-; reflexivity).
+      do 6 (destruct p; try (injection Ef as _ <-; reflexivity)).
+      destruct (b =? 10); [discriminate|injection Ef as _ <-; reflexivity].
+    - right. exists m. split; [reflexivity|]. destruct (gaia_exec temp (dev s) m). reflexivity.
+  Qed.
+
+  Definition gaia_sinv (s : gaia_state) : Prop := gaia_inv (dev s).
+
+  Lemma gaia_step_sinv s b : gaia_sinv s -> gaia_sinv (fst (gaia_step temp s b)).
+  Proof.
+    intros Hi. unfold gaia_sinv in *.
+    destruct (gaia_step_cases s b) as [(_ & -> & _)|(m & _ & He)]; [exact Hi|].
+    exact (proj1 (gaia_exec_post _ _ _ _ Hi He)).
+  Qed.
+
+  Lemma gaia_run_sinv bs : forall s, gaia_sinv s -> gaia_sinv (fst (gaia_run temp s bs)).
+  Proof.
+    induction bs as [|b r IH]; intros s H; cbn; [exact H|].
+    unfold gaia_run. cbn [srun]. pose proof (gaia_step_sinv s b H) as H1. unfold gaia_step in H1.
+    destruct (sstep gaia_fstep (gaia_exec temp) s b) as [s1 o]. cbn [fst] in H1.
+    specialize (IH s1 H1). unfold gaia_run in IH.
+    destruct (srun gaia_fstep (gaia_exec temp) s1 r) as [s2 os]. exact IH.
+  Qed.
+
+  Definition gaia_reachable (s : gaia_state) : Prop := exists bs, s = fst (gaia_run temp gaia_init bs).
+  Lemma gaia_reachable_sinv s : gaia_reachable s -> gaia_sinv s.
+  Proof. intros [bs ->]. apply gaia_run_sinv. exact gaia_inv0. Qed.
+
+  (* ---- C04: every reply is framed and carries the id of the request it answers ---- *)
+  Theorem gaia_replies_framed s b r :
+    gaia_reachable s -> snd (gaia_step temp s b) = OReply r ->
+    exists m body, gaia_executed s b = Some m /\
+      r = gaia_frame body (cmd_id (dev (fst (gaia_step temp s b)))) /\
+      match gaia_decode (gaia_tokens m) with
+      | DEmpty | DUnknown =>       (* nothing recognisable: the PREVIOUS id is echoed (quirk) *)
+          cmd_id (dev (fst (gaia_step temp s b))) = cmd_id (dev s)
+      | DErr _ _ | DOk _ _ _ =>    (* recognised command, accepted or refused: the CURRENT id *)
+          cmd_id (dev (fst (gaia_step temp s b))) = last (gaia_tokens m) []
+      end.
+  Proof.
+    intros Hr H. apply gaia_reachable_sinv in Hr.
+    destruct (gaia_step_cases s b) as [(_ & _ & H1)|(m & Hm & He)]; [congruence|].
+    pose proof (gaia_exec_post _ _ _ _ Hr He) as [_ Hp]. exists m.
+    destruct (gaia_decode (gaia_tokens m)) as [| |c cid|k args cid] eqn:Ed.
+    - destruct Hp as [Hd Ho]. rewrite Ho in H. injection H as <-.
+      exists (gaia_error_body 1000). rewrite Hd. auto.
+    - destruct Hp as [Hd Ho]. rewrite Ho in H. injection H as <-.
+      exists (gaia_error_body 1001). rewrite Hd. auto.
+    - destruct Hp as [Hd Ho]. rewrite Ho in H. injection H as <-.
+      exists (gaia_error_body c). rewrite Hd. cbn [with_id cmd_id]. repeat split; auto.
+      unfold gaia_decode in Ed. destruct (gaia_tokens m) as [|a0 rest0]; [discriminate|].
+      destruct (gaia_lookup gaia_table a0) as [[k' l]|]; [|discriminate].
+      cbn [mid_last] in Ed.
+      repeat match type of Ed with
+             | (if ?c then _ else _) = _ => destruct c
+             | match ?x with _ => _ end = _ => destruct x
+             end; try discriminate; injection Ed as _ <-; reflexivity.
+    - destruct Hp as (_ & Hid & _ & raw & Ho & _). rewrite Ho in H. injection H as <-.
+      exists raw. rewrite Hid. repeat split; auto.
+      destruct (gaia_decode_ok _ _ _ _ Ed) as [_ ->]. reflexivity.
+  Qed.
+
+  (* ---- C05: refused requests change no register ---- *)
+  Theorem gaia_refused_unchanged s b :
+    gaia_reachable s ->
+    (forall m k args cid, gaia_executed s b = Some m -> gaia_decode (gaia_tokens m) <> DOk k args cid) ->
+    gregs (dev (fst (gaia_step temp s b))) = gregs (dev s).
+  Proof.
+    intros Hr Hn. apply gaia_reachable_sinv in Hr.
+    destruct (gaia_step_cases s b) as [(_ & -> & _)|(m & Hm & He)]; [reflexivity|].
+    pose proof (gaia_exec_post _ _ _ _ Hr He) as [_ Hp]. specialize (Hn m).
+    destruct (gaia_decode (gaia_tokens m)) as [| |c cid|k args cid].
+    - destruct Hp as [-> _]. reflexivity.
+    - destruct Hp as [-> _]. reflexivity.
+    - destruct Hp as [-> _]. reflexivity.
+    - exfalso. eapply Hn; eauto.
+  Qed.
+
+  (* only an accepted SETD / SETG / LOADCONF changes registers *)
+  Lemma gaia_step_regs s b : gaia_sinv s ->
+    gregs (dev (fst (gaia_step temp s b))) = gregs (dev s) \/
+    exists m k args cid, gaia_executed s b = Some m /\ gaia_decode (gaia_tokens m) = DOk k args cid /\
+                         set_kind k = true /\ args_valid k args /\
+                         gaia_handle temp k (with_id (dev s) cid) args =
+                         (dev (fst (gaia_step temp s b)), snd (gaia_step temp s b)).
+  Proof.
+    intros Hr. destruct (gaia_step_cases s b) as [(_ & -> & _)|(m & Hm & He)]; [left; reflexivity|].
+    pose proof (gaia_exec_post _ _ _ _ Hr He) as [_ Hp].
+    destruct (gaia_decode (gaia_tokens m)) as [| |c cid|k args cid] eqn:Ed.
+    - destruct Hp as [-> _]. left. reflexivity.
+    - destruct Hp as [-> _]. left. reflexivity.
+    - destruct Hp as [-> _]. left. reflexivity.
+    - destruct Hp as (Hv & _ & Hsame & raw & _ & Hh). destruct (set_kind k) eqn:Ek.
+      + right. exists m, k, args, cid. auto.
+      + left. rewrite (Hsame eq_refl). reflexivity.
+  Qed.
+
+  (* the step is an accepted write of register (k, x):  SETD x _ / SETG x _ / LOADCONF _ *)
+  Definition gaia_sets (k : gkind) (x : Z) (s : gaia_state) (b : Z) : Prop :=
+    exists m args cid, gaia_executed s b = Some m /\ gaia_decode (gaia_tokens m) = DOk k args cid /\
+                       (k = KLoadconf \/ hd 0 args = x).
+
+  Fixpoint gaia_quiet (P : gaia_state -> Z -> Prop) (s : gaia_state) (h : list Z) : Prop :=
+    match h with
+    | [] => True
+    | b :: r => ~ P s b /\ gaia_quiet P (fst (gaia_step temp s b)) r
+    end.
+
+  (* per-channel frame of one step *)
+  Lemma gaia_step_frame s b x : gaia_sinv s -> 1 <= x <= 10 ->
+    (~ gaia_sets KSetd x s b ->
+       nth_error (vd (dev (fst (gaia_step temp s b)))) (Z.to_nat (x - 1)) =
+       nth_error (vd (dev s)) (Z.to_nat (x - 1))) /\
+    (~ gaia_sets KSetg x s b ->
+       nth_error (vg (dev (fst (gaia_step temp s b)))) (Z.to_nat (x - 1)) =
+       nth_error (vg (dev s)) (Z.to_nat (x - 1))) /\
+    (~ gaia_sets KLoadconf x s b -> conf (dev (fst (gaia_step temp s b))) = conf (dev s)).
+  Proof.
+    intros Hr Hx.
+    destruct (gaia_step_regs s b Hr) as [Hsame|(m & k & args & cid & Hm & Hd & Hk & Hv & Hh)].
+    - unfold gregs in Hsame. injection Hsame as E1 E2 E3. rewrite E1, E2, E3. auto.
+    - destruct k; try discriminate; unfold args_valid in Hv; cbn [arity] in Hv.
+      + (* LOADCONF *) destruct Hv as (x' & -> & _). cbn [gaia_handle hd] in Hh.
+        injection Hh as Hd' _. rewrite <- Hd'. cbn [vd vg conf with_id].
+        repeat split; auto. intros Hq. exfalso. apply Hq. exists m, [x'], cid. auto.
+      + (* SETD *) destruct Hv as (x' & y & -> & Hx' & Hy).
+        destruct (handle_setd (with_id (dev s) cid) x' y Hr Hx') as (l & Hl & Hh').
+        rewrite Hh' in Hh. cbv zeta in Hh. injection Hh as Hd' _. rewrite <- Hd'.
+        cbn [vd vg conf with_id] in *. repeat split; auto. intros Hq.
+        destruct (Z.eq_dec x' x) as [->|Hne].
+        * exfalso. apply Hq. exists m, [x; y], cid. auto.
+        * eapply set_nth_neq; eauto. lia.
+      + (* SETG *) destruct Hv as (x' & y & -> & Hx' & Hy).
+        destruct (handle_setg (with_id (dev s) cid) x' y Hr Hx') as (l & Hl & Hh').
+        rewrite Hh' in Hh. cbv zeta in Hh. injection Hh as Hd' _. rewrite <- Hd'.
+        cbn [vd vg conf with_id] in *. repeat split; auto. intros Hq.
+        destruct (Z.eq_dec x' x) as [->|Hne].
+        * exfalso. apply Hq. exists m, [x; y], cid. auto.
+        * eapply set_nth_neq; eauto. lia.
+  Qed.
+
+  Lemma gaia_quiet_frame (sel : nat) x h : forall s, gaia_sinv s -> 1 <= x <= 10 ->
+    (gaia_quiet (gaia_sets KSetd x) s h ->
+       nth_error (vd (dev (fst (gaia_run temp s h)))) (Z.to_nat (x - 1)) =
+       nth_error (vd (dev s)) (Z.to_nat (x - 1))) /\
+    (gaia_quiet (gaia_sets KSetg x) s h ->
+       nth_error (vg (dev (fst (gaia_run temp s h)))) (Z.to_nat (x - 1)) =
+       nth_error (vg (dev s)) (Z.to_nat (x - 1))) /\
+    (gaia_quiet (gaia_sets KLoadconf x) s h -> conf (dev (fst (gaia_run temp s h))) = conf (dev s)).
+  Proof.
+    induction h as [|b r IH]; intros s Hs Hx; [cbn; auto|].
+    pose proof (gaia_step_sinv s b Hs) as Hs1.
+    destruct (gaia_step_frame s b x Hs Hx) as (F1 & F2 & F3).
+    destruct (IH _ Hs1 Hx) as (G1 & G2 & G3).
+    unfold gaia_run in *. cbn [srun gaia_quiet]. unfold gaia_step in *.
+    destruct (sstep gaia_fstep (gaia_exec temp) s b) as [s1 o]. cbn [fst] in *.
+    destruct (srun gaia_fstep (gaia_exec temp) s1 r) as [s2 os]. cbn [fst] in *.
+    repeat split; intros [Q1 Q2].
+    - rewrite (G1 Q2). exact (F1 Q1).
+    - rewrite (G2 Q2). exact (F2 Q1).
+    - rewrite (G3 Q2). exact (F3 Q1).
+  Qed.
+End H.
+
+(* ====================================================================================== *)
+(* Request lines built from tokens                                                          *)
+
+Definition nonws (c : Z) : Prop := is_ws c = false.
+Definition tok_ok (t : list Z) : Prop := t <> [] /\ Forall nonws t.
+
+Lemma split_ws_aux_tok tok : Forall nonws tok ->
+  forall cur l, split_ws_aux cur (tok ++ l) = split_ws_aux (rev tok ++ cur) l.
+Proof.
+  induction 1 as [|c t Hc Ht IH]; intros cur l; [reflexivity|].
+  cbn [app split_ws_aux rev]. unfold nonws in Hc. rewrite Hc. rewrite IH. rewrite <- app_assoc. reflexivity.
+Qed.
+
+Lemma split_ws_aux_flush cur rest : cur <> [] ->
+  split_ws_aux cur (32 :: rest) = rev cur :: split_ws_aux [] rest.
+Proof. intros H. cbn [split_ws_aux]. change (is_ws 32) with true. cbv iota. destruct cur; [congruence|reflexivity]. Qed.
+
+Lemma split_ws_aux_end cur : cur <> [] -> split_ws_aux cur [] = [rev cur].
+Proof. intros H. cbn. destruct cur; [congruence|reflexivity]. Qed.
+
+Lemma rev_nonempty {A} (l : list A) : l <> [] -> rev l <> [].
+Proof. intros H E. apply H. rewrite <- (rev_involutive l), E. reflexivity. Qed.
+
+Lemma split_ws_join toks : Forall tok_ok toks -> split_ws_aux [] (join [32] toks) = toks.
+Proof.
+  induction 1 as [|t r [Hne Hnw] Hr IH]; [reflexivity|].
+  destruct r as [|t2 r].
+  - cbn [join]. rewrite <- (app_nil_r t) at 1. rewrite (split_ws_aux_tok t Hnw), app_nil_r.
+    rewrite split_ws_aux_end by (apply rev_nonempty; exact Hne). rewrite rev_involutive. reflexivity.
+  - change (join [32] (t :: t2 :: r)) with (t ++ [32] ++ join [32] (t2 :: r)).
+    rewrite (split_ws_aux_tok t Hnw), app_nil_r. cbn [app].
+    rewrite split_ws_aux_flush by (apply rev_nonempty; exact Hne). rewrite rev_involutive, IH. reflexivity.
+Qed.
+
+Lemma join_snoc_nonws toks : toks <> [] -> Forall tok_ok toks ->
+  exists J e, join [32] toks = J ++ [e] /\ nonws e.
+Proof.
+  intros Hne H. induction H as [|t r [Htn Hnw] Hr IH]; [congruence|].
+  destruct r as [|t2 r].
+  - cbn [join]. destruct (exists_last Htn) as (t' & e & ->). exists t', e. split; [reflexivity|].
+    apply Forall_app in Hnw as [_ He]. inversion He; auto.
+  - destruct (IH ltac:(discriminate)) as (J & e & HJ & He).
+    change (join [32] (t :: t2 :: r)) with (t ++ [32] ++ join [32] (t2 :: r)). rewrite HJ.
+    exists (t ++ [32] ++ J), e. split; [rewrite <- !app_assoc; reflexivity|exact He].
+Qed.
+
+Lemma rstrip_nonws_end l e : nonws e -> rstrip (l ++ [e]) = l ++ [e].
+Proof.
+  intros He. unfold rstrip. rewrite rev_unit. cbn [lstrip]. unfold nonws in He. rewrite He.
+  cbn [rev]. rewrite rev_involutive. reflexivity.
+Qed.
+
+Lemma join_Forall (P : Z -> Prop) toks : P 32 -> Forall (Forall P) toks -> Forall P (join [32] toks).
+Proof.
+  intros Hs H. induction H as [|t r Ht Hr IH]; [constructor|].
+  destruct r as [|t2 r]; [exact Ht|].
+  change (join [32] (t :: t2 :: r)) with (t ++ [32] ++ join [32] (t2 :: r)).
+  apply Forall_app. split; [exact Ht|]. constructor; [exact Hs|exact IH].
+Qed.
+
+(* the request line '#' + ' '.join(tokens) *)
+Definition gline (toks : list (list Z)) : list Z := 35 :: join [32] toks.
+
+Lemma gaia_tokens_gline t0 rest :
+  Forall tok_ok (t0 :: rest) -> hd 0 t0 <> 35 -> gaia_tokens (gline (t0 :: rest)) = t0 :: rest.
+Proof.
+  intros Hok Hh. unfold gaia_tokens, gline.
+  pose proof Hok as Hok'. inversion Hok' as [|? ? [Hne Hnw] Hr]; subst.
+  destruct t0 as [|c t0']; [congruence|]. cbn [hd] in Hh. inversion Hnw as [|? ? Hc Hnw']; subst.
+  assert (HJ : exists X, join [32] ((c :: t0') :: rest) = c :: X).
+  { destruct rest as [|t2 r]; [exists t0'; reflexivity|]. eexists. reflexivity. }
+  destruct HJ as [X HX].
+  assert (E1 : lstrip_ch 35 (35 :: join [32] ((c :: t0') :: rest)) = join [32] ((c :: t0') :: rest)).
+  { rewrite HX. cbn [lstrip_ch]. rewrite Z.eqb_refl. replace (c =? 35) with false by lia. reflexivity. }
+  rewrite E1. unfold strip.
+  assert (E2 : lstrip (join [32] ((c :: t0') :: rest)) = join [32] ((c :: t0') :: rest)).
+  { rewrite HX. cbn [lstrip]. unfold nonws in Hc. rewrite Hc. reflexivity. }
+  rewrite E2. destruct (join_snoc_nonws ((c :: t0') :: rest) ltac:(discriminate) Hok) as (J & e & HJ & He).
+  rewrite HJ, (rstrip_nonws_end J e He), <- HJ. unfold split_ws. apply split_ws_join. exact Hok.
+Qed.
+
+Lemma nonws_not_nl c : nonws c -> c <> 10.
+Proof. unfold nonws, is_ws. lia. Qed.
+
+Section L.
+  Variable temp : Z.
+
+  Lemma gaia_run_body pre body (d : gdev) :
+    Forall (fun c => c <> 10) body ->
+    gaia_run temp {| buf := 35 :: pre; dev := d |} body =
+    ({| buf := 35 :: pre ++ body; dev := d |}, repeat OTrue (length body)).
+  Proof.
+    revert pre. induction body as [|c r IH]; intros pre Hf.
+    - cbn. rewrite app_nil_r. reflexivity.
+    - inversion Hf as [|? ? Hc Hr]; subst. unfold gaia_run in *. cbn [srun].
+      assert (Hs : sstep gaia_fstep (gaia_exec temp) {| buf := 35 :: pre; dev := d |} c =
+                   ({| buf := 35 :: (pre ++ [c]); dev := d |}, OTrue)).
+      { unfold sstep, gaia_fstep. cbn [buf dev app]. replace (c =? 10) with false by lia. reflexivity. }
+      rewrite Hs, (IH (pre ++ [c]) Hr). rewrite <- app_assoc. reflexivity.
+  Qed.
+
+  (* a complete line from idle: True for every byte but the last, which executes the line *)
+  Lemma gaia_line_from_idle (s : gaia_state) body :
+    sidle s = true -> Forall (fun c => c <> 10) body ->
+    gaia_run temp s (35 :: body ++ [10]) =
+    let (d', o) := gaia_exec temp (dev s) (35 :: body) in
+    ({| buf := []; dev := d' |}, repeat OTrue (S (length body)) ++ [o]).
+  Proof.
+    intros Hi Hf. apply sidle_buf in Hi. destruct s as [bf d]. cbn [buf dev] in *. subst bf.
+    unfold gaia_run. cbn [srun].
+    assert (H1 : sstep gaia_fstep (gaia_exec temp) {| buf := []; dev := d |} 35 =
+                 ({| buf := [35]; dev := d |}, OTrue)) by reflexivity.
+    rewrite H1. pose proof (srun_app gaia_fstep (gaia_exec temp) {| buf := [35]; dev := d |} body [10]) as Ha.
+    rewrite Ha. pose proof (gaia_run_body [] body d Hf) as Hb. unfold gaia_run in Hb. cbn [app] in Hb.
+    rewrite Hb. cbn [srun].
+    assert (H2 : sstep gaia_fstep (gaia_exec temp) {| buf := 35 :: body; dev := d |} 10 =
+                 let (d', o) := gaia_exec temp d (35 :: body) in ({| buf := []; dev := d' |}, o)).
+    { unfold sstep, gaia_fstep. cbn [buf dev app Z.eqb Pos.eqb].
+      replace (removelast (35 :: body ++ [10])) with (35 :: body)
+        by (change (35 :: body ++ [10]) with ((35 :: body) ++ [10]); rewrite removelast_last; reflexivity).
+      reflexivity. }
+    rewrite H2. destruct (gaia_exec temp d (35 :: body)) as [d' o]. cbn [repeat app]. reflexivity.
+  Qed.
+
+  (* a request given by its tokens, from idle *)
+  Lemma gaia_request_from_idle (s : gaia_state) t0 rest :
+    sidle s = true -> Forall tok_ok (t0 :: rest) -> hd 0 t0 <> 35 ->
+    gaia_run temp s (gline (t0 :: rest) ++ [10]) =
+    (let (d', o) := gaia_exec temp (dev s) (gline (t0 :: rest)) in
+     ({| buf := []; dev := d' |}, repeat OTrue (length (gline (t0 :: rest))) ++ [o])) /\
+    gaia_tokens (gline (t0 :: rest)) = t0 :: rest.
+  Proof.
+    intros Hi Hok Hh. split; [|apply gaia_tokens_gline; auto].
+    unfold gline. cbn [app length]. apply gaia_line_from_idle; [exact Hi|].
+    apply join_Forall; [lia|]. eapply Forall_impl; [|exact Hok].
+    intros t [_ Ht]. eapply Forall_impl; [|exact Ht]. intros c. apply nonws_not_nl.
+  Qed.
+
+  (* C02 in its strongest form: ANY line '#...' without newline, from any reachable idle state,
+     gets exactly one reply, framed with header, id and terminator *)
+  Theorem gaia_every_line_answered (s : gaia_state) body :
+    gaia_reachable temp s -> sidle s = true -> Forall (fun c => c <> 10) body ->
+    exists r bdy cid, snd (gaia_run temp s (35 :: body ++ [10])) = repeat OTrue (S (length body)) ++ [OReply r] /\
+                      r = gaia_frame bdy cid /\ sidle (fst (gaia_run temp s (35 :: body ++ [10]))) = true.
+  Proof.
+    intros Hr Hi Hf. apply gaia_reachable_sinv in Hr.
+    rewrite (gaia_line_from_idle s body Hi Hf).
+    destruct (gaia_exec temp (dev s) (35 :: body)) as [d' o] eqn:He.
+    pose proof (gaia_exec_post temp _ _ _ _ Hr He) as [_ Hp]. cbn [fst snd].
+    destruct (gaia_decode (gaia_tokens (35 :: body))) as [| |c cid|k args cid].
+    - destruct Hp as [_ ->]. eexists _, _, _. repeat split; reflexivity.
+    - destruct Hp as [_ ->]. eexists _, _, _. repeat split; reflexivity.
+    - destruct Hp as [_ ->]. eexists _, _, _. repeat split; reflexivity.
+    - destruct Hp as (_ & _ & _ & raw & -> & _). eexists _, _, _. repeat split; reflexivity.
+  Qed.
+
+  (* decoding of well-formed requests *)
+  Lemma decode_q0 c k cid : gaia_lookup gaia_table c = Some (k, 0) -> gaia_decode [c; cid] = DOk k [] cid.
+  Proof. intros H. unfold gaia_decode. rewrite H. reflexivity. Qed.
+
+  Lemma decode_a1 c k tx cid x : gaia_lookup gaia_table c = Some (k, 1) ->
+    parse_int tx = Some x -> gaia_in_first k x = true -> gaia_decode [c; tx; cid] = DOk k [x] cid.
+  Proof.
+    intros H Hp Hf. unfold gaia_decode. rewrite H. cbn [mid_last tl removelast last length].
+    change (1 <? Z.of_nat 1) with false. change (1 =? 0) with false. cbv iota. rewrite Hp, Hf. reflexivity.
+  Qed.
+
+  Lemma decode_a2 c k tx ty cid x y : gaia_lookup gaia_table c = Some (k, 2) ->
+    parse_int tx = Some x -> gaia_in_first k x = true -> parse_int ty = Some y -> 0 <= y < 1024 ->
+    gaia_decode [c; tx; ty; cid] = DOk k [x; y] cid.
+  Proof.
+    intros H Hp Hf Hq Hy. unfold gaia_decode. rewrite H. cbn [mid_last tl removelast last length].
+    change (2 <? Z.of_nat 2) with false. change (2 =? 0) with false. cbv iota. rewrite Hp, Hf.
+    cbn [negb]. change (2 =? 2) with true. cbv iota. rewrite Hq.
+    replace ((0 <=? y) && (y <? 1024)) with true by lia. reflexivity.
+  Qed.
+
+  (* the four refusal classes of the property, for any recognised command word *)
+  Theorem gaia_refusal_classes c k l margs cid :
+    gaia_lookup gaia_table c = Some (k, l) ->
+    (l < Z.of_nat (length margs) -> gaia_decode (c :: margs ++ [cid]) = DErr 1015 cid) /\
+    (0 < l -> margs = [] -> gaia_decode (c :: margs ++ [cid]) = DErr 1004 cid) /\
+    (forall t0 rest, 0 < l -> margs = t0 :: rest -> Z.of_nat (length margs) <= l ->
+       (parse_int t0 = None -> gaia_decode (c :: margs ++ [cid]) = DErr 1002 cid) /\
+       (forall x, parse_int t0 = Some x -> gaia_in_first k x = false ->
+                  gaia_decode (c :: margs ++ [cid]) = DErr 1003 cid) /\
+       (forall x, parse_int t0 = Some x -> gaia_in_first k x = true -> l = 2 ->
+          (rest = [] -> gaia_decode (c :: margs ++ [cid]) = DErr 1008 cid) /\
+          (forall t1, rest = [t1] ->
+             (parse_int t1 = None -> gaia_decode (c :: margs ++ [cid]) = DErr 1009 cid) /\
+             (forall y, parse_int t1 = Some y -> ~ 0 <= y < 1024 ->
+                        gaia_decode (c :: margs ++ [cid]) = DErr 1010 cid)))).
+  Proof.
+    intros H.
+    assert (Hm : mid_last (c :: margs ++ [cid]) = (margs, cid)).
+    { unfold mid_last. cbn [tl]. rewrite removelast_last.
+      change (c :: margs ++ [cid]) with ((c :: margs) ++ [cid]). rewrite last_last. reflexivity. }
+    unfold gaia_decode. rewrite H, Hm.
+    split; [intros Hl; replace (l <? Z.of_nat (length margs)) with true by lia; reflexivity|].
+    split; [intros Hl ->; cbn [length]; replace (l <? Z.of_nat 0) with false by lia;
+            replace (l =? 0) with false by lia; reflexivity|].
+    intros t0 rest Hl -> Hlen.
+    replace (l <? Z.of_nat (length (t0 :: rest))) with false by lia.
+    replace (l =? 0) with false by lia.
+    split; [intros ->; reflexivity|].
+    split; [intros x -> ->; reflexivity|].
+    intros x -> -> ->. change (2 =? 2) with true. cbn [negb]. cbv iota.
+    split; [intros ->; reflexivity|].
+    intros t1 ->. split; [intros ->; reflexivity|].
+    intros y -> Hy. replace ((0 <=? y) && (y <? 1024)) with false by lia. reflexivity.
+  Qed.
+
+  Definition tSETD : list Z := [83; 69; 84; 68].
+  Definition tSETG : list Z := [83; 69; 84; 71].
+  Definition tGETVD : list Z := [71; 69; 84; 86; 68].
+  Definition tGETVG : list Z := [71; 69; 84; 86; 71].
+  Definition tLOADCONF : list Z := [76; 79; 65; 68; 67; 79; 78; 70].
+  Definition tCONFQ : list Z := [67; 79; 78; 70; 63].
+
+  Lemma tok_ok_const t : t <> [] -> forallb (fun c => negb (is_ws c)) t = true -> tok_ok t.
+  Proof.
+    intros Hn H. split; [exact Hn|]. apply Forall_forall. intros c Hc. rewrite forallb_forall in H.
+    specialize (H c Hc). unfold nonws. destruct (is_ws c); [discriminate|reflexivity].
+  Qed.
+
+  Ltac const_tok := apply tok_ok_const; [discriminate|reflexivity].
+
+  (* run of a request whose decoding is known *)
+  Lemma gaia_run_decoded (s : gaia_state) t0 rest k args cid :
+    sidle s = true -> Forall tok_ok (t0 :: rest) -> hd 0 t0 <> 35 ->
+    gaia_decode (t0 :: rest) = DOk k args cid ->
+    gaia_run temp s (gline (t0 :: rest) ++ [10]) =
+    let (d', o) := gaia_handle temp k (with_id (dev s) cid) args in
+    ({| buf := []; dev := d' |}, repeat OTrue (length (gline (t0 :: rest))) ++ [o]).
+  Proof.
+    intros Hi Hok Hh Hd. destruct (gaia_request_from_idle s t0 rest Hi Hok Hh) as [Hrun Htok].
+    rewrite Hrun. unfold gaia_exec. rewrite Htok, Hd. reflexivity.
+  Qed.
+
+  (* C05, drain voltage register x: SETD x y is acknowledged ('#x id') and GETVD x reads back y
+     until the next accepted SETD of the same channel x *)
+  Theorem gaia_setd_readback (s : gaia_state) tx ty cid x y :
+    gaia_reachable temp s -> sidle s = true ->
+    tok_ok tx -> tok_ok ty -> tok_ok cid -> parse_int tx = Some x -> parse_int ty = Some y ->
+    1 <= x <= 10 -> 0 <= y < 1024 ->
+    let req := gline [tSETD; tx; ty; cid] in
+    let s1 := fst (gaia_run temp s (req ++ [10])) in
+    snd (gaia_run temp s (req ++ [10])) =
+      repeat OTrue (length req) ++ [OReply (gaia_frame (render_int x) cid)] /\
+    forall h tx' cid', gaia_quiet temp (gaia_sets KSetd x) s1 h -> sidle (fst (gaia_run temp s1 h)) = true ->
+      tok_ok tx' -> tok_ok cid' -> parse_int tx' = Some x ->
+      snd (gaia_run temp (fst (gaia_run temp s1 h)) (gline [tGETVD; tx'; cid'] ++ [10])) =
+      repeat OTrue (length (gline [tGETVD; tx'; cid'])) ++ [OReply (gaia_frame (render_int y) cid')].
+  Proof.
+    intros Hr Hi Htx Hty Hcid Hpx Hpy Hx Hy. cbv zeta. apply gaia_reachable_sinv in Hr.
+    assert (Hok : Forall tok_ok [tSETD; tx; ty; cid]) by (repeat (apply Forall_cons; [first [assumption|const_tok]|]); apply Forall_nil).
+    assert (Hd : gaia_decode [tSETD; tx; ty; cid] = DOk KSetd [x; y] cid).
+    { apply decode_a2; auto. unfold gaia_in_first. lia. }
+    pose proof (gaia_run_sinv temp (gline [tSETD; tx; ty; cid] ++ [10]) s Hr) as Hs1.
+    rewrite (gaia_run_decoded s tSETD _ _ _ _ Hi Hok ltac:(cbn; lia) Hd) in *.
+    destruct (handle_setd temp (with_id (dev s) cid) x y Hr Hx) as (l & Hl & Hh).
+    rewrite Hh in *. cbv zeta in *. cbn [fst snd] in *. split; [reflexivity|].
+    intros h tx' cid' Hq Hi' Htx' Hcid' Hpx'.
+    pose proof (proj1 (gaia_quiet_frame temp 0%nat x h _ Hs1 Hx) Hq) as E. cbn [dev vd] in E.
+    pose proof (gaia_run_sinv temp h _ Hs1) as Hs2.
+    assert (Hok' : Forall tok_ok [tGETVD; tx'; cid']) by (repeat (apply Forall_cons; [first [assumption|const_tok]|]); apply Forall_nil).
+    assert (Hd' : gaia_decode [tGETVD; tx'; cid'] = DOk KGetvd [x] cid').
+    { apply decode_a1; auto. unfold gaia_in_first. lia. }
+    rewrite (gaia_run_decoded _ tGETVD _ _ _ _ Hi' Hok' ltac:(cbn; lia) Hd').
+    destruct (handle_getvd temp (with_id (dev (fst (gaia_run temp _ h))) cid') x Hs2 Hx) as (v & Hv & Hg).
+    rewrite Hg. cbn [snd]. cbn [with_id vd] in Hv. rewrite E, (set_nth_eq _ _ _ _ Hl) in Hv.
+    injection Hv as <-. reflexivity.
+  Qed.
+
+  Theorem gaia_setg_readback (s : gaia_state) tx ty cid x y :
+    gaia_reachable temp s -> sidle s = true ->
+    tok_ok tx -> tok_ok ty -> tok_ok cid -> parse_int tx = Some x -> parse_int ty = Some y ->
+    1 <= x <= 10 -> 0 <= y < 1024 ->
+    let req := gline [tSETG; tx; ty; cid] in
+    let s1 := fst (gaia_run temp s (req ++ [10])) in
+    snd (gaia_run temp s (req ++ [10])) =
+      repeat OTrue (length req) ++ [OReply (gaia_frame (render_int x) cid)] /\
+    forall h tx' cid', gaia_quiet temp (gaia_sets KSetg x) s1 h -> sidle (fst (gaia_run temp s1 h)) = true ->
+      tok_ok tx' -> tok_ok cid' -> parse_int tx' = Some x ->
+      snd (gaia_run temp (fst (gaia_run temp s1 h)) (gline [tGETVG; tx'; cid'] ++ [10])) =
+      repeat OTrue (length (gline [tGETVG; tx'; cid'])) ++ [OReply (gaia_frame (render_int y) cid')].
+  Proof.
+    intros Hr Hi Htx Hty Hcid Hpx Hpy Hx Hy. cbv zeta. apply gaia_reachable_sinv in Hr.
+    assert (Hok : Forall tok_ok [tSETG; tx; ty; cid]) by (repeat (apply Forall_cons; [first [assumption|const_tok]|]); apply Forall_nil).
+    assert (Hd : gaia_decode [tSETG; tx; ty; cid] = DOk KSetg [x; y] cid).
+    { apply decode_a2; auto. unfold gaia_in_first. lia. }
+    pose proof (gaia_run_sinv temp (gline [tSETG; tx; ty; cid] ++ [10]) s Hr) as Hs1.
+    rewrite (gaia_run_decoded s tSETG _ _ _ _ Hi Hok ltac:(cbn; lia) Hd) in *.
+    destruct (handle_setg temp (with_id (dev s) cid) x y Hr Hx) as (l & Hl & Hh).
+    rewrite Hh in *. cbv zeta in *. cbn [fst snd] in *. split; [reflexivity|].
+    intros h tx' cid' Hq Hi' Htx' Hcid' Hpx'.
+    pose proof (proj1 (proj2 (gaia_quiet_frame temp 0%nat x h _ Hs1 Hx)) Hq) as E. cbn [dev vg] in E.
+    pose proof (gaia_run_sinv temp h _ Hs1) as Hs2.
+    assert (Hok' : Forall tok_ok [tGETVG; tx'; cid']) by (repeat (apply Forall_cons; [first [assumption|const_tok]|]); apply Forall_nil).
+    assert (Hd' : gaia_decode [tGETVG; tx'; cid'] = DOk KGetvg [x] cid').
+    { apply decode_a1; auto. unfold gaia_in_first. lia. }
+    rewrite (gaia_run_decoded _ tGETVG _ _ _ _ Hi' Hok' ltac:(cbn; lia) Hd').
+    destruct (handle_getvg temp (with_id (dev (fst (gaia_run temp _ h))) cid') x Hs2 Hx) as (v & Hv & Hg).
+    rewrite Hg. cbn [snd]. cbn [with_id vg] in Hv. rewrite E, (set_nth_eq _ _ _ _ Hl) in Hv.
+    injection Hv as <-. reflexivity.
+  Qed.
+
+  (* C05, configuration: LOADCONF x is acknowledged ('#x id'), CONF? reads back x until the next
+     accepted LOADCONF *)
+  Theorem gaia_conf_readback (s : gaia_state) tx cid x :
+    gaia_reachable temp s -> sidle s = true ->
+    tok_ok tx -> tok_ok cid -> parse_int tx = Some x -> 1 <= x <= 10 ->
+    let req := gline [tLOADCONF; tx; cid] in
+    let s1 := fst (gaia_run temp s (req ++ [10])) in
+    snd (gaia_run temp s (req ++ [10])) =
+      repeat OTrue (length req) ++ [OReply (gaia_frame (render_int x) cid)] /\
+    forall h cid', gaia_quiet temp (gaia_sets KLoadconf x) s1 h -> sidle (fst (gaia_run temp s1 h)) = true ->
+      tok_ok cid' ->
+      snd (gaia_run temp (fst (gaia_run temp s1 h)) (gline [tCONFQ; cid'] ++ [10])) =
+      repeat OTrue (length (gline [tCONFQ; cid'])) ++ [OReply (gaia_frame (render_int x) cid')].
+  Proof.
+    intros Hr Hi Htx Hcid Hpx Hx. cbv zeta. apply gaia_reachable_sinv in Hr.
+    assert (Hok : Forall tok_ok [tLOADCONF; tx; cid]) by (repeat (apply Forall_cons; [first [assumption|const_tok]|]); apply Forall_nil).
+    assert (Hd : gaia_decode [tLOADCONF; tx; cid] = DOk KLoadconf [x] cid).
+    { apply decode_a1; auto. unfold gaia_in_first. lia. }
+    pose proof (gaia_run_sinv temp (gline [tLOADCONF; tx; cid] ++ [10]) s Hr) as Hs1.
+    rewrite (gaia_run_decoded s tLOADCONF _ _ _ _ Hi Hok ltac:(cbn; lia) Hd) in *.
+    cbn [gaia_handle hd fst snd] in *. split; [reflexivity|].
+    intros h cid' Hq Hi' Hcid'.
+    pose proof (proj2 (proj2 (gaia_quiet_frame temp 0%nat x h _ Hs1 Hx)) Hq) as E. cbn [dev conf] in E.
+    assert (Hok' : Forall tok_ok [tCONFQ; cid']) by (repeat (apply Forall_cons; [first [assumption|const_tok]|]); apply Forall_nil).
+    rewrite (gaia_run_decoded _ tCONFQ _ _ _ _ Hi' Hok' ltac:(cbn; lia) (decode_q0 tCONFQ KConf cid' eq_refl)).
+    cbn [gaia_handle snd with_id conf cmd_id]. cbn [with_id conf cmd_id] in E. rewrite E. reflexivity.
+  Qed.
+
+  (* C02: the query catalogue (every command without a register write), any id token, arguments
+     in domain: exactly one reply, non-error, registers unchanged, framer idle, id echoed *)
+  Theorem gaia_queries_answered (s : gaia_state) c k margs cid args :
+    gaia_reachable temp s -> sidle s = true ->
+    Forall tok_ok (c :: margs ++ [cid]) -> hd 0 c <> 35 ->
+    gaia_decode (c :: margs ++ [cid]) = DOk k args cid -> set_kind k = false ->
+    exists raw, snd (gaia_run temp s (gline (c :: margs ++ [cid]) ++ [10])) =
+                  repeat OTrue (length (gline (c :: margs ++ [cid]))) ++ [OReply (gaia_frame raw cid)] /\
+                gregs (dev (fst (gaia_run temp s (gline (c :: margs ++ [cid]) ++ [10])))) = gregs (dev s) /\
+                sidle (fst (gaia_run temp s (gline (c :: margs ++ [cid]) ++ [10]))) = true.
+  Proof.
+    intros Hr Hi Hok Hh Hd Hk. apply gaia_reachable_sinv in Hr.
+    rewrite (gaia_run_decoded s c _ _ _ _ Hi Hok Hh Hd).
+    destruct (gaia_decode_ok _ _ _ _ Hd) as [Hv _].
+    destruct (handle_reply temp k (with_id (dev s) cid) args Hr Hv) as (raw & d1 & Hhd & Hid & _ & Hsame).
+    rewrite Hhd. cbn [fst snd dev]. exists raw. rewrite (Hsame Hk). unfold gaia_reply.
+    cbn [with_id cmd_id]. repeat split; reflexivity.
+  Qed.
+End L.
+
+(* hypotheses are satisfiable: concrete tokens, a non-trivial reachable idle state *)
+Example gaia_tokens_example :
+  tok_ok [49; 48] /\ parse_int [49; 48] = Some 10 /\ tok_ok [105; 100; 55] /\
+  gaia_decode [tGETVD; [49; 48]; [105; 100; 55]] = DOk KGetvd [10] [105; 100; 55].
+Proof.
+  repeat split; try discriminate; try reflexivity; repeat constructor.
+Qed.
+
+Example gaia_reachable_example :
+  let s := fst (gaia_run 33 gaia_init (gline [tSETD; [51]; [55; 55]; [97]] ++ [10])) in
+  gaia_reachable 33 s /\ sidle s = true /\ nth_error (vd (dev s)) 2 = Some 77 /\ cmd_id (dev s) = [97].
+Proof. cbv zeta. split; [eexists; reflexivity|]. vm_compute. auto. Qed.
